@@ -37,6 +37,11 @@ def run(chk, repo, tier):
     # a product wavefront owns its tilt list: tilting it must not tilt the wavefront it was made from
     from . import common as _common5
     _common5.mul_concat(chk, repo, 'C05-o')
+    # the field that is transformed is the product of the plane phasors: a product that crops or misplaces an operand (a
+    # scalar plane after an off-centre pupil) loses part of the energy before the unitary transform sees it
+    chk.clause('C05-p', 'products of fields keep every sample of the overlap; a scalar operand takes the array operand\'s shape and offset', 3)
+    from .c06 import product_rules as _product_rules5
+    _product_rules5(chk, repo, 'C05-p')
     from .prop_flow import skip_rule as _skip_rule
     _skip_rule(chk, repo, 'C05-o')
     with chk.guard(['C05-e'], 'propagate._mask_shift'):
